@@ -718,7 +718,7 @@ D10_TEXT_OPS = [
 class DenseHistory(History):
     name = "dense_history"
     cls = "dense"
-    theorems = ("C04_dense_step_partial", "C04_dense_history_partial", "C04_dense_start", "C04_last_write_wins",
+    theorems = ("C04_dense_step", "C04_dense_history", "C04_dense_start", "C04_last_write_wins",
                 "C04_frame", "C04_growth_zero_filled")
 
     def fixed_cases(self):
@@ -732,8 +732,8 @@ class DenseHistory(History):
 class SparseHistory(History):
     name = "sparse_history"
     cls = "sparse"
-    theorems = ("C04_sparse_step_partial", "C04_sparse_step_wf_partial", "C04_sparse_history_partial",
-                "C04_sparse_start")
+    theorems = ("C04_sparse_step", "C04_sparse_step_wf", "C04_sparse_history",
+                "C04_sparse_history_wf", "C04_sparse_start")
 
     def fixed_cases(self):
         # deterministic member of the known finding "repeated entry in an index list of a sparse read"
@@ -745,7 +745,7 @@ class SparseHistory(History):
 class PairedHistory(Family):
     """a dense and a sparse tensor driven by the same history remain equal"""
     name = "dense_sparse_agree"
-    theorems = ("C04_dense_sparse_agree_partial",)
+    theorems = ("C04_dense_sparse_agree",)
 
     def size(self, case):
         return len(case["ops"]) * 1000 + len(json.dumps(case))
